@@ -162,7 +162,7 @@ fn trace_probe(line: &str) {
 fn est_steps(op: &str, slow: bool) -> u64 {
   match op.split(' ').next().unwrap_or("") {
     "fill" | "verify" | "flush" => 0,
-    "clone" | "refs" | "set_minseg" | "inc_discarded" | "clear" | "rd" | "rd_var" => 1,
+    "clone" | "refs" | "set_minseg" | "inc_discarded" | "clear" | "rd" | "rd_var" | "checksum" => 1,
     "drop_arena" | "rewind" => 2,
     "alloc_bytes_owned" => 4,
     o if o.starts_with("alloc") => {
@@ -353,7 +353,10 @@ impl Gen {
         let mid = self.rng.range(top, reach.max(top + 1));
         let around = self.rng.pick(&[top, reach, mid]);
         let off = (around + self.rng.range(0, 4)).saturating_sub(self.rng.range(0, 6));
-        if self.rng.chance(75) {
+        if self.rng.chance(12) {
+          // the checksum of the allocated memory as this call sees it
+          ops.push(format!("checksum {}", self.rng.pick(&["crc32", "ordsum"])));
+        } else if self.rng.chance(75) {
           let ty = self.rng.pick(&["u8", "u8", "i8", "u16", "u32", "u64", "i64", "u128"]);
           let ord = self.rng.pick(&["be", "le"]);
           ops.push(format!("rd {ty} {ord} {off}"));
